@@ -29,6 +29,7 @@ import dataclasses
 import fnmatch
 import hashlib
 import itertools
+import json
 import logging
 import os
 import shutil
@@ -1402,6 +1403,48 @@ def run(ctx):
         ctx.count("harness:audit-hook-errors", _M.hook_errors)
 
 
+def locale_children(ctx, base):
+    """ the last step of the conversion, from text to the bytes of the file, in a process whose locale cannot encode
+        the text (LC_ALL=C without UTF-8 mode): the write either succeeds with the file holding the results, or fails
+        with the previous file untouched """
+    import subprocess
+    env = dict(os.environ)
+    env.update({"LC_ALL": "C", "LANG": "C", "PYTHONUTF8": "0", "PYTHONCOERCECLOCALE": "0", "PYTHONIOENCODING": "utf-8"})
+    here = os.path.dirname(os.path.dirname(os.path.dirname(os.path.abspath(__file__))))
+    env["PYTHONPATH"] = os.pathsep.join([os.environ.get("VERIF_REPO", "/repo"), here])
+    for function in ("write_to_file", "dump_records"):
+        target = os.path.join(base, f"locale-{function}.json")
+        _put(target, OLD_BYTES)
+        case = {"part": "L", "function": function, "locale": "C"}
+        ctx.count("L:non-ascii-results-under-C-locale")
+        try:
+            proc = subprocess.run([sys.executable, "-m", "vf.c20_child", target, function], env=env, cwd=here,
+                                  capture_output=True, text=True, timeout=120, check=False)
+            outcome = json.loads(proc.stdout.strip().splitlines()[-1])
+        except Exception as err:  # pylint: disable=broad-except
+            ctx.violate("harness:locale-child-failed",
+                        {"exception": type(err).__name__, "message": str(err)[:200],
+                         "stderr": (locals().get("proc").stderr[-600:] if locals().get("proc") is not None else "")}, case)
+            continue
+        after = _read(target)
+        facts = {"function": function, "child_error": outcome["error"], "message": outcome["message"],
+                 "locale_encoding": outcome["preferred_encoding"]}
+        ctx.case(("locale", function), nontrivial=True)
+        if outcome["error"] is not None:
+            ctx.count("op:bytes-unchanged")
+            if after != OLD_BYTES:
+                ctx.violate("existing-file-damaged",
+                            dict(facts, damage="truncated-to-empty" if not after else "replaced"), case)
+        else:
+            try:
+                loaded = json.loads(after.decode("utf-8"))
+                text = json.dumps(loaded, ensure_ascii=False)
+            except Exception:  # pylint: disable=broad-except
+                text = ""
+            if "β-lactone" not in text:
+                ctx.violate("written-file-holds-the-results", facts, case)
+
+
 FIRST_RUN = {"elements": ["log"], "input": "dir", "mode": "fresh", "logcfg": "inside", "cwd": "neutral",
              "name": "explicit", "path_state": "exists"}
 
@@ -1415,6 +1458,9 @@ def _run(ctx, base, main_module, config_module):
     ctx.guard("harness:directory-case-crashed", FIRST_RUN, run_dir_case, ctx, os.path.join(base, "d"), FIRST_RUN,
               main_module, config_module)
     ctx.count("history:first-run-of-the-process-logs-into-its-output-directory")
+
+    if ctx.worker == 0:
+        ctx.guard("harness:locale-children-crashed", {"part": "L"}, locale_children, ctx, base)
 
     # ---- (E) -------------------------------------------------------------------------------
     if ctx.worker == 0:
